@@ -74,7 +74,7 @@ class Cli(Engine):
         "C03": ["EXIT"],
         "C17": ["EXIT"],
         "C19": ["WR"],
-        "C20": ["OUT", "JS", "OM", "TR", "VR", "EM"],
+        "C20": ["OUT", "JS", "OM", "TR", "VR", "EM", "CANON"],
     }
 
     def compare_sections(self, prop):
@@ -179,7 +179,7 @@ PROPS = {
     "C19": {"engine": "cli", "extra_engines": ["env"], "modelled": [m.replace("%s", "C19") for m in CLI_MODELLED],
             "assumptions": ["task commands have no side effects inside the sandbox (they only append to a log outside it)",
                             "--clean is exercised only on spokfiles without declared outputs (which outputs are removed is C12)"]},
-    "C20": {"engine": "cli", "extra_engines": ["env"], "modelled": [m.replace("%s", "C20") for m in CLI_MODELLED],
+    "C20": {"engine": "cli", "extra_engines": ["env"], "extra_props": ["C20Json"], "modelled": [m.replace("%s", "C20") for m in CLI_MODELLED],
             "assumptions": ["--quiet --json together, and listings under --json (stream replaced by a null stream), are compared with the model only, not judged",
                             "the default-task clause is judged when the default task has commands and no file dependencies (otherwise a skip is indistinguishable in the log)"]},
 }
